@@ -15,13 +15,15 @@ META = {
         'executed on short arrays of symbolic samples with symbolic offsets / '
         'durations (np-lite), and the solver shows the result is exactly the '
         'existing samples of the requested window / the cyclic repetition of '
-        'the requested length.',
+        'the requested length; make_stereo runs on channels of every pair of '
+        'lengths 0..M with symbolic sample values.',
     'level_note':
         'Trusted: z3 (QF_BVFP, nlsat), the FP translator and its reading of '
         'numpy semantics (validated every run against the real functions on '
         'all 65536 values), np-lite slicing/concatenate (validated per sampled '
-        'path against numpy). make_stereo (boolean-mask assignment) and the '
-        'WAV container / resampling (scipy, librosa) are outside the claim.',
+        'path against numpy; broadcasting and boolean-mask assignment for '
+        'make_stereo likewise). The WAV container / resampling (scipy, '
+        'librosa) are outside the claim.',
     'engines': ['symex', 'fpk'],
     'technique':
         'QF_BVFP lemma over all int16 values generated from the function ASTs '
@@ -29,7 +31,8 @@ META = {
     'functions': [('audio_io', 'int16_samples_to_float32'),
                   ('audio_io', 'float_samples_to_int16'),
                   ('audio_io', 'crop_samples'),
-                  ('audio_io', 'repeat_samples_to_duration')],
+                  ('audio_io', 'repeat_samples_to_duration'),
+                  ('audio_io', 'make_stereo')],
     'assumptions': [
         'inputs have the documented dtype (the dtype guards are preconditions)',
         'L-C20-2: 1 <= len(samples) <= 10^5, duration in (0,100] s, sample '
@@ -37,8 +40,9 @@ META = {
         'E1: arrays of <=4 samples at 2-4 Hz (index domain closed by forking), '
         'doubles as reals',
     ],
-    'bounds': {'quick': 'as stated', 'thorough': 'arrays of <=6 samples'},
-    'outside': ['make_stereo', 'samples_to_wav_data / wav_data_to_samples '
+    'bounds': {'quick': 'as stated; make_stereo: channel lengths 0..3',
+               'thorough': 'arrays of <=6 samples; make_stereo: lengths 0..6'},
+    'outside': ['samples_to_wav_data / wav_data_to_samples '
                 '(scipy WAV container, librosa resampling)'],
 }
 
@@ -262,7 +266,48 @@ def h_repeat(c):
   c.cover('duration an exact multiple of the signal length', cnt == 2 * n)
 
 
-HARNESSES = {'h_crop': h_crop, 'h_repeat': h_repeat, 'lemma_pcm': h_pcm_witness}
+def h_stereo(c):
+  """make_stereo: lengths forked over 0..M x 0..M, sample values symbolic."""
+  a = c.mod('audio_io')
+  np = c.np
+  M = c.params['M']
+  nl = c.concretize(c.int('len_left', 0, M))
+  nr = c.concretize(c.int('len_right', 0, M))
+  lv = [c.int('l%d' % i, -32768, 32767) for i in range(nl)]
+  rv = [c.int('r%d' % i, -32768, 32767) for i in range(nr)]
+  left = np.array(lv, dtype=np.int16)
+  right = np.array(rv, dtype=np.float32 if c.params.get('mismatch') else np.int16)
+  if c.mode == 'sym':
+    if not hasattr(left, 'data'):  # np-lite returns a bare list for []
+      left, right = np.Arr(list(lv)), np.Arr(list(rv))
+    left.dtype = np.int16
+    right.dtype = np.float32 if c.params.get('mismatch') else np.int16
+  try:  # (AudioIODataTypeError derives from BaseException)
+    out, err = a.make_stereo(left, right), None
+  except a.AudioIODataTypeError as e:
+    out, err = None, e
+  if c.params.get('mismatch'):
+    c.check(isinstance(err, a.AudioIODataTypeError),
+            'channels of different data types are rejected')
+    return
+  c.check(err is None, 'no error for two channels of one data type')
+  rows = out.data if hasattr(out, 'data') else out.tolist()
+  n = max(nl, nr)
+  c.check(len(rows) == n and all(len(r) == 2 for r in rows),
+          'one (left, right) pair per sample of the longer channel')
+  ok = []
+  for i in range(min(n, len(rows))):
+    ok.append(c.eq(rows[i][0], lv[i] if i < nl else 0))
+    ok.append(c.eq(rows[i][1], rv[i] if i < nr else 0))
+  c.check(c.And(ok or [True]),
+          'both channels in order, the shorter one padded with zeros')
+  c.cover('left shorter', nl < nr)
+  c.cover('right shorter', nr < nl)
+  c.cover('an empty channel', min(nl, nr) == 0 and n > 0)
+
+
+HARNESSES = {'h_crop': h_crop, 'h_repeat': h_repeat, 'lemma_pcm': h_pcm_witness,
+             'h_stereo': h_stereo}
 FUNCS = {'lemma_pcm': _pcm_lemma, 'lemma_length': _length_lemma}
 
 
@@ -280,8 +325,11 @@ def jobs(tier):
   add('h_crop', n=4, rate=4)
   add('h_repeat', n=2, rate=2, max_s=3)
   add('h_repeat', n=3, rate=4, max_s=2)
+  add('h_stereo', M=3)
+  add('h_stereo', M=2, mismatch=True)
   if deep:
     add('h_crop', n=6, rate=4, budget=900)
     add('h_repeat', n=4, rate=4, max_s=4, budget=900)
     add('h_repeat', n=1, rate=8, max_s=2, budget=900)
+    add('h_stereo', M=6, budget=900)
   return J
